@@ -117,6 +117,10 @@ func (g *gen) execInstr(ins ssa.Instruction, st *State, b *ssa.BasicBlock) {
 			}
 			if types.Identical(v.Type(), x.Object().Type()) || !isInterface(v.Type()) {
 				g.varAt[x.Object().Name()] = v
+				if g.varAll[x.Object().Name()] == nil {
+					g.varAll[x.Object().Name()] = map[ssa.Value]bool{}
+				}
+				g.varAll[x.Object().Name()][v] = true
 			}
 		} else if x.Object() != nil && x.IsAddr {
 			// address-taken local: remember its cell; contracts read the cell's current content
@@ -266,7 +270,7 @@ func (g *gen) execInstr(ins ssa.Instruction, st *State, b *ssa.BasicBlock) {
 		for _, r := range x.Results {
 			rs = append(rs, g.val(r))
 		}
-		g.retStates = append(g.retStates, &retPoint{vars: g.varAt, st: &State{reach: st.reach, heap: st.heap, wm: st.wm}, results: rs, pos: x.Pos()})
+		g.retStates = append(g.retStates, &retPoint{blk: b, vars: g.varAt, st: &State{reach: st.reach, heap: st.heap, wm: st.wm}, results: rs, pos: x.Pos()})
 	case *ssa.Panic:
 		g.oblige(st, "safe:panic", g.lbl(x.Pos(), "call", "panic"), False, "explicit panic reachable")
 	default:
@@ -330,6 +334,49 @@ func isPow2Minus1(x *big.Int) (uint, bool) {
 	return 0, false
 }
 
+// bitBound: a syntactic upper bound (in bits) of a non-negative term.
+func bitBound(t *Term) (uint, bool) {
+	switch t.Op {
+	case "lit":
+		if t.Sort == SInt && t.I.Sign() >= 0 {
+			return uint(t.I.BitLen()), true
+		}
+	case "mod":
+		if l, ok := litInt(t.Args[1]); ok && l.Sign() > 0 {
+			if new(big.Int).And(l, new(big.Int).Sub(l, big.NewInt(1))).Sign() == 0 {
+				return uint(l.BitLen() - 1), true
+			}
+		}
+	case "*":
+		if l, ok := litInt(t.Args[1]); ok && l.Sign() > 0 && new(big.Int).And(l, new(big.Int).Sub(l, big.NewInt(1))).Sign() == 0 {
+			if b, ok := bitBound(t.Args[0]); ok {
+				return b + uint(l.BitLen()-1), true
+			}
+		}
+	case "+":
+		b1, ok1 := bitBound(t.Args[0])
+		b2, ok2 := bitBound(t.Args[1])
+		if ok1 && ok2 {
+			if b1 < b2 {
+				b1 = b2
+			}
+			return b1 + 1, true
+		}
+	case "-":
+		// wrapInt of a signed type: ((x + h) mod 2^n) - h : no bound
+	case "ite":
+		b1, ok1 := bitBound(t.Args[1])
+		b2, ok2 := bitBound(t.Args[2])
+		if ok1 && ok2 {
+			if b1 > b2 {
+				return b1, true
+			}
+			return b2, true
+		}
+	}
+	return 0, false
+}
+
 func (g *gen) bitop(op string, a, b *Term, t types.Type) *Term {
 	if la, ok := litInt(a); ok {
 		if lb, ok2 := litInt(b); ok2 && la.Sign() >= 0 && lb.Sign() >= 0 {
@@ -346,13 +393,33 @@ func (g *gen) bitop(op string, a, b *Term, t types.Type) *Term {
 	if op == "and" {
 		for _, pr := range [][2]*Term{{a, b}, {b, a}} {
 			if l, ok := litInt(pr[1]); ok && l.Sign() >= 0 {
-				if n, ok := isPow2Minus1(l); ok && isUnsigned(t) {
+				if n, ok := isPow2Minus1(l); ok {
+					// x & (2^n - 1) is x mod 2^n in two's complement, for either sign
 					return Mod(pr[0], Pow2(n))
 				}
 				if l.Sign() == 0 {
 					return Int(0)
 				}
 			}
+		}
+	}
+	if op == "or" {
+		// exact when the operands occupy disjoint bit ranges: a | b = a + b if
+		// 0 <= b < 2^s and a is a non-negative multiple of 2^s (either order);
+		// s is a syntactic bit bound of one operand, the solver checks the condition
+		r := App("bit.or", SInt, a, b)
+		res := r
+		for _, pr := range [][2]*Term{{a, b}, {b, a}} {
+			if s, ok := bitBound(pr[1]); ok && s < 63 {
+				cond := And(Le(Int(0), pr[1]), Lt(pr[1], Pow2(s)), Le(Int(0), pr[0]), Eq(Mod(pr[0], Pow2(s)), Int(0)))
+				res = Ite(cond, Add(pr[0], pr[1]), res)
+			}
+		}
+		if res != r {
+			if lo, hi, ok := intRange(t); ok {
+				g.assumeGlobal(And(Le(IntBig(lo), r), Le(r, IntBig(hi))))
+			}
+			return res
 		}
 	}
 	r := App("bit."+op, SInt, a, b)
